@@ -501,6 +501,7 @@ pub fn run(thorough: bool) -> i32 {
         tg.runs += gg.runs;
         tg.packets += gg.packets;
         tg.lower_sent_while_higher_waited += gg.lower_sent_while_higher_waited;
+        tg.ready_inside_a_turn += gg.ready_inside_a_turn;
         tg.higher_resumed_after_lower += gg.higher_resumed_after_lower;
         if let Some((key, what)) = v {
             rep.add(Violation { key, what, case: json!({"check": "timed", "case": serde_json::to_value(c).unwrap()}) });
@@ -511,6 +512,7 @@ pub fn run(thorough: bool) -> i32 {
     rep.cov("timed_cases", tg.cases);
     rep.cov("timed_sender_runs", tg.runs);
     rep.guard("timed_lower_queue_sends_while_higher_object_waits_then_higher_resumes", tg.higher_resumed_after_lower);
+    rep.guard("timed_polls_between_two_transfers_of_one_carousel_turn", tg.ready_inside_a_turn);
     rep.sample(serde_json::to_value(&tcases[tcases.len() / 3]).unwrap());
     rep.cov("states", ncases as u64);
     rep.cov("transitions", g.packets);
@@ -543,6 +545,9 @@ pub struct Timed {
     pub param_ms: u64,
     /// index into SIZES
     pub size: u8,
+    /// max_transfer_count (0 = 1): a carousel turn is that many back-to-back transfers
+    #[serde(default)]
+    pub count: u32,
 }
 
 #[derive(Serialize, Deserialize, Clone, Debug)]
@@ -564,6 +569,7 @@ fn timed_obj(t: &Timed, salt: u8, prio: u32) -> ObjSpec {
     let mut o = ObjSpec::simple(SIZES[t.size as usize], salt);
     o.oti = Some(OtiSpec::new(Scheme::NoCode, 4, 2, 0, true));
     o.prio = prio;
+    o.count = t.count.max(1);
     match t.kind {
         0 => o.start_ms = Some(t.param_ms as i64),
         1 => o.carousel = Some(Carousel::Delay(t.param_ms)),
@@ -667,6 +673,8 @@ pub struct TG {
     pub lower_sent_while_higher_waited: u64,
     /// a higher timed object sent at a later poll than some lower-queue packet
     pub higher_resumed_after_lower: u64,
+    /// polls at which a carousel object with max_transfer_count >= 2 was between two transfers of one turn
+    pub ready_inside_a_turn: u64,
 }
 
 pub fn run_timed(c: &TimedCase, g: &mut TG) -> Option<(String, String)> {
@@ -711,7 +719,7 @@ pub fn run_timed(c: &TimedCase, g: &mut TG) -> Option<(String, String)> {
         // (ready from that instant on) and IntervalBetweenStartTimes (ready once more than the interval has
         // passed since the previous transfer STARTED - not since it ended). At a poll where the timed object
         // of the top queue is ready and not in transmission, the first object packet must be its own.
-        if c.timed.len() == 1 && !c.top_plain && matches!(c.timed[0].kind, 0 | 2) {
+        if c.timed.len() == 1 && !c.top_plain && (matches!(c.timed[0].kind, 0 | 2) || (c.timed[0].kind == 1 && c.timed[0].count >= 2)) {
             let t0k = &c.timed[0];
             let n = SIZES[t0k.size as usize].div_ceil(4).max(1);
             let mut sent = 0usize; // packets of the timed object so far
@@ -720,14 +728,23 @@ pub fn run_timed(c: &TimedCase, g: &mut TG) -> Option<(String, String)> {
             for poll in 0..c.polls {
                 let t = poll as u64 * c.step_ms;
                 let idle = sent % n == 0;
+                // inside a carousel turn (max_transfer_count back-to-back transfers) the next transfer waits for nothing
+                let in_turn = (sent / n) % t0k.count.max(1) as usize != 0;
                 let ready = idle
                     && match t0k.kind {
                         0 => sent == 0 && t >= t0k.param_ms,
-                        _ => match last_start_poll {
-                            None => true,
-                            Some(sp) => t > sp as u64 * c.step_ms + t0k.param_ms,
-                        },
+                        1 => in_turn,
+                        _ => {
+                            in_turn
+                                || match last_start_poll {
+                                    None => true,
+                                    Some(sp) => t > sp as u64 * c.step_ms + t0k.param_ms,
+                                }
+                        }
                     };
+                if ready && in_turn {
+                    g.ready_inside_a_turn += 1;
+                }
                 let first = full.get(i).filter(|x| x.0 == poll);
                 if ready {
                     if let Some(x) = first {
@@ -804,11 +821,20 @@ pub fn timed_cases(thorough: bool) -> Vec<TimedCase> {
     for kind in 0..5u8 {
         for &param_ms in params {
             for size in 1..4u8 {
-                tops.push(Timed { kind, param_ms, size });
+                tops.push(Timed { kind, param_ms, size, count: 0 });
             }
         }
     }
-    let mids = [Timed { kind: 1, param_ms: 500, size: 2 }, Timed { kind: 3, param_ms: 1200, size: 3 }, Timed { kind: 0, param_ms: 400, size: 1 }, Timed { kind: 2, param_ms: 600, size: 2 }];
+    for kind in [1u8, 2] {
+        for count in [2u32, 3] {
+            for &param_ms in params {
+                for size in 1..3u8 {
+                    tops.push(Timed { kind, param_ms, size, count });
+                }
+            }
+        }
+    }
+    let mids = [Timed { kind: 1, param_ms: 500, size: 2, count: 0 }, Timed { kind: 3, param_ms: 1200, size: 3, count: 0 }, Timed { kind: 0, param_ms: 400, size: 1, count: 0 }, Timed { kind: 2, param_ms: 600, size: 2, count: 2 }];
     for t in &tops {
         for &step_ms in steps {
             for budget in [1usize, 2, 5] {
